@@ -52,6 +52,13 @@ var universe = []typ{
 	{Key: "samename", Type: "hp.NodeH", Val: "hp.NodeH{V: 5}", OtherNm: "nodeH2T"},
 	// ... while the parser package defines a type of that name itself
 	{Key: "samename-shadow", Type: "hp.ShadowH", Val: "hp.ShadowH{V: 6}", OtherNm: "shadow2T"},
+	// aliases that re-export a type the parser package cannot name itself: a type of an internal
+	// package of the helper, and an unexported type of the helper
+	{Key: "alias-of-internal", Type: "hp.AliasInt", Val: "hp.NewAliasInt(7)", OtherNm: "aliasInt2T"},
+	{Key: "alias-of-unexported", Type: "hp.AliasHid", Val: "hp.NewAliasHid(8)", OtherNm: "aliasHid2T"},
+	// a local alias of a local type, and of an imported one
+	{Key: "alias-local", Type: "recAliasT", Val: `recAliasT{6, "a"}`, OtherNm: "rec2T"},
+	{Key: "alias-imported", Type: "durAliasT", Val: "durAliasT(5)", OtherNm: "myDurT"},
 }
 
 const decls = `
@@ -94,6 +101,13 @@ type (
 	tok2T  Token
 	nodeH2T  hp.NodeH
 	shadow2T hp.ShadowH
+	aliasInt2T hp.AliasInt
+	aliasHid2T hp.AliasHid
+)
+
+type (
+	recAliasT = recT
+	durAliasT = time.Duration
 )
 
 // ShadowH has the same name as a type of the imported helper package.
@@ -113,15 +127,15 @@ func theFunc(x int) int { return x + 1 }
 // ---- case model ---------------------------------------------------------------------
 
 type Case struct {
-	Skel   string // seq opt plus star list listopt starf err tokstar
-	T      string // universe key (type of rule x)
-	Param  string // how the parameter receiving x's term is typed: exact any iface assignable | neg-othernamed neg-pointer neg-iface
-	Struct string // structural layout: ok shared | neg-missing neg-arity neg-ambiguous neg-returns neg-orphan neg-results0 neg-results2
-	Extra  string `json:",omitempty"` // a second use of x under another sugar (opt plus star list listopt) in a rule of its own
-	ExtraBefore bool `json:",omitempty"` // that rule is declared before the start rule
-	Detail string `json:",omitempty"`
-	Lox    string `json:",omitempty"`
-	Go     string `json:",omitempty"`
+	Skel        string // seq opt plus star list listopt starf err tokstar
+	T           string // universe key (type of rule x)
+	Param       string // how the parameter receiving x's term is typed: exact any iface assignable | neg-othernamed neg-pointer neg-iface
+	Struct      string // structural layout: ok shared | neg-missing neg-arity neg-ambiguous neg-returns neg-orphan neg-results0 neg-results2
+	Extra       string `json:",omitempty"` // a second use of x under another sugar (opt plus star list listopt) in a rule of its own
+	ExtraBefore bool   `json:",omitempty"` // that rule is declared before the start rule
+	Detail      string `json:",omitempty"`
+	Lox         string `json:",omitempty"`
+	Go          string `json:",omitempty"`
 }
 
 func (c *Case) typ() typ {
@@ -590,7 +604,8 @@ func eval(run *ev.Run, cases []*Case, count bool) ([]verdict, error) {
 		rs[i] = r
 		c.Lox, c.Go = r.lox, r.gofile
 		files = append(files, map[string]string{"g.lox": r.lox, "user.go": r.gofile,
-			"../helper/PKGNAME/h.go": "package PKGNAME\n\ntype NodeH struct{ V int }\n\ntype ShadowH struct{ V int }\n"})
+			"../helper/PKGNAME/h.go":               "package PKGNAME\n\nimport \"verifscratch/helper/PKGNAME/internal/node\"\n\ntype NodeH struct{ V int }\n\ntype ShadowH struct{ V int }\n\ntype AliasInt = node.Node\n\nfunc NewAliasInt(v int) AliasInt { return node.Node{V: v} }\n\ntype hidden struct{ V int }\n\ntype AliasHid = hidden\n\nfunc NewAliasHid(v int) AliasHid { return hidden{V: v} }\n",
+			"../helper/PKGNAME/internal/node/n.go": "package node\n\ntype Node struct{ V int }\n"})
 	}
 	b, err := forge.GenerateOnly(files, false, false) // the real `go list`: the Go side is the subject
 	if err != nil {
@@ -658,13 +673,22 @@ func eval(run *ev.Run, cases []*Case, count bool) ([]verdict, error) {
 	if len(names) == 0 {
 		return vs, nil
 	}
-	bin, err := b.Build(driverMain(names), false)
-	if err != nil {
+	var bin string
+	for round := 0; ; round++ {
+		var err error
+		bin, err = b.Build(driverMain(names), false)
+		if err == nil {
+			break
+		}
 		be, _ := err.(*forge.BuildError)
 		if be == nil {
 			return nil, err
 		}
-		// attribute compile errors to packages
+		if round >= 8 {
+			return nil, fmt.Errorf("driver build still failing after %d rounds:\n%s", round, be.Output)
+		}
+		// attribute compile errors to packages (the compiler may report only some of the failing
+		// packages per run, hence the loop)
 		m := regexp.MustCompile(`(c\d{4})/([\w.]+\.go):\d+`).FindAllStringSubmatch(be.Output, -1)
 		blamed := false
 		for _, mm := range m {
@@ -693,10 +717,6 @@ func eval(run *ev.Run, cases []*Case, count bool) ([]verdict, error) {
 		names = keep
 		if len(names) == 0 {
 			return vs, nil
-		}
-		bin, err = b.Build(driverMain(names), false)
-		if err != nil {
-			return nil, fmt.Errorf("second build failed: %v", err)
 		}
 	}
 	stdin, _ := json.Marshal(jobs)
@@ -769,7 +789,7 @@ const knownStarF = "C06-starf-without-discard"
 func TestC06(t *testing.T) {
 	run := ev.Start("C06")
 	defer run.Finish(t)
-	run.Rule = "grammar skeletons (sequence, x?, x+, x*, @list, @list?, x*!, an @error alternative, C* over tokens) x a type universe for the rule's result (int, string, pointer, named struct, unnamed and named slice, map, func, chan, interface, any, generic instance, imported time.Duration / *bytes.Buffer / *strings.Builder, a type imported from a package whose NAME equals the parser package's name (with and without a local type of the same name), array, unnamed struct, Token) x how the receiving parameter is typed (identical, any, implemented interface, assignable-but-not-identical named type or <-chan; negative: other named type with equal underlying type, value vs pointer, unimplemented interface) x an optional second use of the same element rule under another sugar (x?, x+, x*, @list, @list?) in a rule declared before or after the start rule (helper rules are shared by name) x structural layout (one method, method shared by two productions; negative: missing method, wrong arity, two matching methods, differing return types, orphan method, 0 or 2 results); the legality of every case is known by construction (no call to go/types); " +
+	run.Rule = "grammar skeletons (sequence, x?, x+, x*, @list, @list?, x*!, an @error alternative, C* over tokens) x a type universe for the rule's result (int, string, pointer, named struct, unnamed and named slice, map, func, chan, interface, any, generic instance, imported time.Duration / *bytes.Buffer / *strings.Builder, a type imported from a package whose NAME equals the parser package's name (with and without a local type of the same name), aliases (local, of an imported type, re-exporting a type of another package's internal package, re-exporting an unexported type), array, unnamed struct, Token) x how the receiving parameter is typed (identical, any, implemented interface, assignable-but-not-identical named type or <-chan; negative: other named type with equal underlying type, value vs pointer, unimplemented interface) x an optional second use of the same element rule under another sugar (x?, x+, x*, @list, @list?) in a rule declared before or after the start rule (helper rules are shared by name) x structural layout (one method, method shared by two productions; negative: missing method, wrong arity, two matching methods, differing return types, orphan method, 0 or 2 results); the legality of every case is known by construction (no call to go/types); " +
 		"oracle: (1) lox succeeds exactly on the legal cases and a failure's diagnostic names the production's line or the method; (2) on success the package compiles with the generated files (real go list + go build); (3) at run time every action parameter equals the value the producing action returned (reflect.DeepEqual; identity for pointers, channels, funcs; zero value for an absent x?), for 2-3 sentences per skeleton; " +
 		"non-trivial = negative case or parameter type not identical to the term's type; distinct by (skeleton, type, parameter kind, layout)"
 	run.Assumptions = []string{"Go assignability as in the language specification", "for interface-typed parameters an absent optional may arrive as untyped nil or as the boxed zero value"}
